@@ -29,5 +29,20 @@ CHECKS["C17"] = {
             "QML components are outside the model and covered by C18's check); the Python reachability oracle is used for search only. Known finding F13 listed in known_findings.json.",
 }
 
+CHECKS["C12"] = {
+    "text": "Proof for EVERY child sequence, both flows and all counts > 0: the index counter of layout.rs (with its `%` arithmetic) places each child "
+            "in the cell given by the documented flow rule (C12_flow, spec/LayoutSpec.v; closed form C12_auto_closed_form); the grid/form/box passes never "
+            "cast a negative index to usize (no Panic), copy spans, and build each per-index array as 'first value attached at that index', with one "
+            "'mismatched' diagnostic per later different value (C12_grid, C12_box, C12_conflict_diagnosed, C12_range_diagnosed). The full array statement is "
+            "REFUTED for rowMinimumHeight (recorded at the column index: C12_arrays_refuted, known finding F1, pinned by the repository's own snapshot) and proved for the "
+            "other three arrays and for on-diagonal carriers (C12_three_arrays, C12_arrays_except). Which of row/column indexes each array and MAX_INDEX/MAX_COUNT are "
+            "re-translated from layout.rs on every run; the rest of the model is tied by differential execution through the real pipeline (QML -> .ui), including an "
+            "exhaustive sweep of short child sequences.",
+    "technique": "Coq proofs (induction over children with array-agreement invariant; div/mod lemmas) + translator for index variables/constants + differential execution through the real pipeline",
+    "design_ref": "5 C12",
+    "note": "Trusted: Coq kernel; tools/gen_tables.py anchors in layout.rs; harness uigen + xml.etree; attached values are integer literals (their evaluation is C03's subject); "
+            "alignment is copied verbatim and only checked by K at the level of presence. i32 overflow of the cursor needs > 2^31 children and is not modelled.",
+}
+
 NOT_YET = {
 }
